@@ -31,7 +31,7 @@ LEVEL_TEXT = ("Held on every call of every generated history of this run (20-60 
 LEVEL_NOTE = ("Side effects are visible only through argument/global/RNG digests and CPython audit events; an effect that changes "
               "none of these is out of reach. Results are compared after canonicalisation (numpy scalars -> Python scalars, arrays "
               "with dtype and shape).")
-PLAN = {"quick": dict(shards=16, budget=90), "thorough": dict(shards=32, budget=500)}
+PLAN = {"quick": dict(shards=16, budget=160), "thorough": dict(shards=32, budget=500)}
 RULE = ("Histories of 20-60 calls drawn from encode / decode / repair_dna / set_vt / the four converters / calculus helpers / "
         "find_vertices / connect_valid_graph / connect_coding_graph / approximate_capacity / calculate_intersection_score / "
         "create_random_shuffles / the representation converters / leaf and vertex queries / path_matching / remove_useless / "
@@ -328,8 +328,8 @@ def setup(ctx):
     guards.audit_install()
 
 
-def _initial(rng, large=False):
-    k = rng.choice([2, 2, 3]) if not large else 6
+def _initial(rng, large=False, strip=False):
+    k = 6 if large else 2 if strip else rng.choice([2, 2, 3])
     acc = None
     while acc is None:
         acc = gens.arc_graph(rng, k, density=rng.choice([0.6, 0.8, 0.95]), forbid3=rng.random() < 0.4)
@@ -344,9 +344,8 @@ def _initial(rng, large=False):
                 lm=lm, cfg=cfg, strand=strand, check=oracles.vt(strand, 4))
 
 
-LARGE_OPS = {"obtain_formers", "obtain_latters", "approximate_capacity", "connect_valid_graph", "find_vertices", "get_complete_accessor", "obtain_vertices",
-             "accessor_to_latter_map", "latter_map_to_accessor", "create_random_shuffles", "encode", "decode", "set_vt",
-             "obtain_leaf_vertices", "filter_valid", "connect_coding_graph"}
+LARGE_OPS = {"obtain_formers", "obtain_latters", "approximate_capacity", "approximate_capacity", "connect_valid_graph", "get_complete_accessor",
+             "obtain_vertices", "accessor_to_latter_map", "create_random_shuffles", "set_vt", "obtain_leaf_vertices", "filter_valid"}
 WEIGHTS = [("encode", 6), ("decode", 5), ("repair_dna", 4), ("set_vt", 2), ("bit_to_number", 2), ("number_to_bit", 1),
            ("dna_to_number", 1), ("number_to_dna", 1), ("calculus", 2), ("find_vertices", 2), ("connect_valid_graph", 2),
            ("connect_coding_graph", 3), ("approximate_capacity", 3), ("calculate_intersection_score", 2),
@@ -414,7 +413,11 @@ def generate(ctx):
     rng = ctx.rng
     for i in range(ctx.pick(20, 250)):
         yield "history", dict(seed=rng.getrandbits(48), length=rng.randint(20, 60), fresh_each=(not ctx.quick()) and rng.random() < 0.15)
-        if i % ctx.pick(10, 5) == 0:
+        if i % 5 == 0:
+            # strip run: arc removal repeated on the shared views until it raises (the states deep into a removal
+            # sequence - vertices without arcs that are still arc heads - are where progress output and scoring differ)
+            yield "history", dict(seed=rng.getrandbits(48), length=70, strip=True)
+        if i % ctx.pick(20, 5) == 0:
             # order 6 (4096 vertices): the cheap operations only; state shared across calls on *different* graphs of one size
             yield "history", dict(seed=rng.getrandbits(48), length=rng.randint(12, 24), large=True)
 
@@ -422,7 +425,7 @@ def generate(ctx):
 def check_history(ctx, case):
     dsw = import_dsw()
     rng = random.Random(case["seed"])
-    S = State(_initial(rng, bool(case.get("large"))))
+    S = State(_initial(rng, bool(case.get("large")), bool(case.get("strip"))))
     names = [n for n, w in WEIGHTS for _ in range(w)]
     recs, live_results, seen_ops = [], [], set()
     where0 = "history seed=%d" % case["seed"]
@@ -456,7 +459,11 @@ def check_history(ctx, case):
                 rng.shuffle(row)
                 S.table[r] = row
             ctx.cls("shared objects edited in place by the harness")
-        if burst > 0:
+        if case.get("strip") and step >= 2:
+            if live_results and isinstance(live_results[-1], dict) and "exc" in live_results[-1] and recs[-1]["op"] == "remove_nasty_arc":
+                break
+            name = "remove_nasty_arc"
+        elif burst > 0:
             burst -= 1
             name = "remove_nasty_arc"
         else:
@@ -571,6 +578,8 @@ def check_history(ctx, case):
     ctx.obs("longest_history", len(recs))
     if large:
         ctx.cls("histories at order 6")
+    if case.get("strip"):
+        ctx.cls("strip histories (arc removal until it raises)")
     ctx.done("history", case, len(seen_ops) >= 3)
 
 
@@ -599,7 +608,7 @@ def floors(agg, tier):
     if c.get("in-place removal followed by further calls", 0) < 100:
         out.append("in-place removals: %d < 100" % c.get("in-place removal followed by further calls", 0))
     for name, need in (("call repeated after its result was scrambled", 2000), ("shared objects edited in place by the harness", 300),
-                       ("histories at order 6", 10)):
+                       ("histories at order 6", 8), ("strip histories (arc removal until it raises)", 30)):
         if c.get(name, 0) < need:
             out.append("%s observed %d < %d" % (name, c.get(name, 0), need))
     if c.get("adopted a returned accessor as the shared accessor", 0) < 30:
